@@ -358,14 +358,15 @@ def _batch_worker(args):
 
 
 def run_model(v, b, insts, consts, invariants, clauses, props, edges_for=lambda inst: True, workers=2, max_paths=None,
-              timeout=900, key_base=None, procs=8, intensify=20, explore_states=6000, explore_budget=120, widen=None):
+              timeout=900, key_base=None, procs=8, intensify=20, explore_states=6000, explore_budget=120, widen=None,
+              stale_model_is_divergence=False):
     """model-check + replay every instance; a violated model invariant is replayed on the real computations and judged"""
     import multiprocessing as mp
     flags = [bool(edges_for(i)) for i in insts]
     if any(flags) and not all(flags):
         # the larger instances are model-checked only (all workers on the invariants), the others also replayed on the real code
         kw = dict(workers=workers, max_paths=max_paths, timeout=timeout, key_base=key_base, procs=procs, intensify=intensify,
-                  explore_states=explore_states, explore_budget=explore_budget, widen=widen)
+                  explore_states=explore_states, explore_budget=explore_budget, widen=widen, stale_model_is_divergence=stale_model_is_divergence)
         t1 = run_model(v, b, [i for i, f in zip(insts, flags) if f], consts, invariants, clauses, props, edges_for=lambda i: True, **kw)
         kw["workers"] = 4
         t2 = run_model(v, b, [i for i, f in zip(insts, flags) if not f], consts, invariants, clauses, props, edges_for=lambda i: False, **kw)
@@ -442,6 +443,11 @@ def run_model(v, b, insts, consts, invariants, clauses, props, edges_for=lambda 
             elif any(x[0] not in clauses for x in vd["bad"]) or what in ("NoNestedFlush", "AtMostOnePostponed", "NeighbourSkew"):
                 v.notes.append("%s: %s violated on %s (structural invariant or a clause owned by another property): %s" % (
                     b.module, what, label, json.dumps(acts)[:400]))
+            elif stale_model_is_divergence and not ok:
+                # the model transcribes a KNOWN defect of the code; the real computations no longer take the counterexample's steps and
+                # end clean: the code has left the model (e.g. the defect was repaired), which is a conformance matter, not a failure
+                v.divergence("%s: %s violated on %s in the model, but the real computations do not follow the counterexample and their "
+                             "execution is clean: the code no longer has the modelled behaviour" % (b.module, what, label))
             else:
                 raise MachineryError("%s: invariant %s violated on %s but the real replay of the counterexample is clean: "
                                      "the model is wrong\n%s" % (b.module, what, label, json.dumps(acts)))
